@@ -4,6 +4,7 @@
 -/
 import GfsModel.OpsHuge
 import GfsModel.Handles
+import GfsModel.Xorshift
 
 namespace Gfs.Ops
 open Gfs Gfs.Proto Gfs.Handles
@@ -55,6 +56,15 @@ def dispatchHandles : List String → Option (Obs × Option Obs)
     let m : Obs := [("fail", "-"), ("bad", "0"), ("dup", "0"), ("leak", "0"), ("end", "0"),
                     ("dead", "0"), ("live", "0"), ("panic", "")]
     some (m, some m)
+  -- the generator put in a given state: the ids are the next k states (Xorshift.nth), and the
+  -- property's clauses about them: none zero, all different, all resolve, all counted
+  | ["hseed", _, st, k] =>
+    let s : BitVec 64 := BitVec.ofNat 64 st.toNat!
+    let k := k.toNat!
+    let ids := (List.range k).map fun i => (Xorshift.nth s (i + 1)).toNat
+    let m : Obs := [("ids", ",".intercalate (ids.map toString)), ("zero", "0"), ("dup", "0"), ("unres", "0"),
+                    ("live", toString k), ("end", "0")]
+    some (m, some [("zero", "0"), ("dup", "0"), ("unres", "0"), ("live", toString k), ("end", "0")])
   -- C16: N goroutines on their own values from a cold start: no race, same results
   | ["race", _, _, _] =>
     let m : Obs := [("race", "0"), ("same", "1")]
